@@ -2,11 +2,33 @@
 matches crossing block edges in delimiter-free mode, repcode-heavy data, minMatch 3..7, dictionaries) must yield a conformant frame
 decoding to the source (library + independent Lean decoder + Conform); corrupted lists with validation on are accepted or refused exactly
 as the Lean model SeqApi.acceptExplicit says (whose validation position is regenerated from the source); everything runs in the
-ASan+UBSan build with exact-size sequence arrays."""
+ASan+UBSan build with exact-size sequence arrays.  Lengths that exceed a block by 2^32 (sums that are the legitimate size again in 32-bit
+arithmetic) are refused by ZSTD_compressSequences and for a registered producer's answer alike; ZSTD_mergeBlockDelimiters is compared with
+SeqApi.mergeDelims on every small arrangement of delimiters / sequences and on the lists extracted from sources with runs of match-less blocks."""
 import build, zv, frames, datagen
 
 ASSUMPTIONS = ["a registered sequence producer is driven without a formatted dictionary and never together with long-distance matching or workers (both refused by the library)",
-               "the delimiter-free transcriber is compared only through round trip + conformance, not against a block-by-block model"]
+               "the delimiter-free transcriber is compared only through round trip + conformance, not against a block-by-block model",
+               "SeqApi.mergeDelims adds literal lengths in Nat: exact for arrays whose lengths sum below 2^32 (any parse of a source below 4 GiB)"]
+
+
+def run_resume(exe, lines, timeout=1800, crashmark="crash", max_restarts=12):
+    """run the lines in one process; when the process dies, the line it died on is marked and the run resumes after it (at most `max_restarts`
+    times), so that one aborting input does not hide the verdicts of the inputs behind it.  Returns (outputs, [(line, stderr), ...])."""
+    outs, crashes, pos = [], [], 0
+    while pos < len(lines):
+        rc, out, err = frames.run_lines(exe, lines[pos:], timeout=timeout)
+        out = out[:len(lines) - pos]
+        outs += out; pos += len(out)
+        if pos >= len(lines):
+            if rc != 0:
+                crashes.append((lines[-1], err))         # answered everything, then died (e.g. a report at exit)
+            break
+        # died (or stopped answering) on lines[pos]
+        crashes.append((lines[pos], err)); outs.append(crashmark); pos += 1
+        if len(crashes) > max_restarts:
+            outs += [crashmark] * (len(lines) - pos); pos = len(lines)
+    return outs, crashes
 
 
 def parse(rng, x, window, minmatch, dictlen=0, rep_heavy=False):
@@ -388,6 +410,39 @@ def producer_cases(ctx, quick):
         if rng.random() < 0.3: p.pop(201)
         api = "c2" if rng.random() < 0.7 else "s%d" % rng.choice([1, 7, 100, 1000, mbs, mbs + 1, 5 * mbs])
         cases.append(dict(x=bytes(x), p=p, plan=plan, api=api, d=d, blocks=blocks, how="random producer history (%s)" % api))
+    # (C) directed: answers whose lengths exceed the block by 2^32 (a multiple, or a little less) - two or more huge fields whose sum is the
+    #     legitimate block size again in any arithmetic narrower than 64 bits - and single huge fields; first block or after a good one,
+    #     fallback on / off, validation on / off: always externalSequences_invalid (the length check is not a producer failure: no fallback)
+    for i in range(10 if quick else 200):
+        k = [1, 2, 3, 5, 260][i % 5]
+        mbs = rng.choice([1024, 2048, 4096]) if k <= 5 else 4096
+        alpha = [rng.randrange(256) for _ in range(rng.choice([12, 24, 48]))]
+        pre = i % 2
+        for fallback in (0, 1):
+            for validate in (0, 1):
+                x = bytearray(); plan = []; blocks = []
+                if pre:
+                    sq0, l0 = replay_block(rng, x, mbs, rng.choice([1, 3, 4]), alpha, bool(validate))
+                    plan.append(entry_str(sq0, l0)); blocks.append(mbs)
+                size = rng.choice([mbs, mbs, mbs - rng.randint(1, 300)])
+                if k > 5:
+                    # many short sequences
+                    start = len(x); sqN = []
+                    for j in range(k):
+                        ll = rng.choice([0, 1, 2]) + (40 if j == 0 else 0)
+                        x += lit_bytes(rng, ll, alpha)
+                        off = rng.randint(1, min(len(x) - start, 30)); copy_from(x, off, 3); sqN.append((off, ll, 3))
+                    lN = size - (len(x) - start); x += lit_bytes(rng, lN, alpha)
+                else:
+                    sqN, lN = replay_block(rng, x, size, k, alpha, bool(validate))
+                blocks.append(size)
+                vs = wrap_variants(rng, sqN + [(0, lN, 0)])
+                search = rng.choice([0, 1, 2])
+                for name, ent in vs:
+                    p = base_params(rng.choice([1, 3, 5]), search, mbs, fallback, validate)
+                    api = "c2" if rng.random() < 0.8 else "s%d" % rng.choice([100, size, 5 * size])
+                    cases.append(dict(x=bytes(x), p=p, plan=plan + [",".join("%d:%d:%d" % e for e in ent)], api=api, d=None, blocks=list(blocks),
+                                      how="producer answer with lengths beyond the block: %s (%d sequences, %s block)" % (name, k, "second" if pre else "first")))
     return cases
 
 
@@ -397,12 +452,11 @@ def run_producer_family(ctx, cases):
     ev = 0
     lines = ["prod %s %s %s %s%s" % (frames.pstr(c["p"]), frames.hx(c["x"]), ";".join(c["plan"]), c["api"], (" " + frames.hx(c["d"])) if c["d"] else "") for c in cases]
     chunks = frames.split_chunks(lines, 16)
-    oc = frames.parallel(lambda ch: [frames.run_lines(exe, ch, timeout=1800)], chunks)
+    oc = frames.parallel(lambda ch: [run_resume(exe, ch, timeout=1800, crashmark="crash calls=-")], chunks)
     res = []
-    for (rc, out, err), ch in zip(oc, chunks):
-        res += out + ["crash calls=-"] * (len(ch) - len(out))
-        if rc != 0:
-            bad = ch[min(len(out), len(ch) - 1)]
+    for (out, crashes), ch in zip(oc, chunks):
+        res += out
+        for bad, err in crashes[:1]:
             ctx.violation("sanitizer build aborted while compressing with a registered sequence producer: %s" % err[-600:], dict(kind="monitor", harness="zvh_seqprod", op=bad[:400000], stderr=err[-3000:]))
     # model verdict per block, in block order
     mlines, mref = [], []
@@ -699,6 +753,210 @@ def dict_rawfirst_case(rng):
     return bytes(x), p, seqs, d
 
 
+def wrap_variants(rng, ent):
+    """ent = ONE block of an explicit-delimiter list (its sequences, then its delimiter), a valid parse of the block.  Returns
+    (description, entries) pairs in which lengths were raised so that their sum exceeds the block by 2^32 (or a multiple, or a little
+    less): any accumulator or addition narrower than 64 bits sees the legitimate block size again.  Fields stay below 2^32.  The last
+    few are controls (no wrap-around to a plausible size)."""
+    n = len(ent); T31 = 1 << 31
+    seqi = [i for i, e in enumerate(ent) if e[0]]
+    out = []
+    if not seqi:
+        return out
+
+    def bump(changes, name):
+        e = [list(t) for t in ent]
+        for i, f, a_ in changes:
+            e[i][f] += a_
+            if e[i][f] >= 1 << 32:
+                return
+        out.append((name, [tuple(t) for t in e]))
+    a = rng.choice(seqi)
+    b = rng.choice([i for i in range(n) if i != a])           # another sequence, or the delimiter (only its literal length is touched)
+    bump([(a, 1, T31), (b, 1, T31)], "litLength + 2^31 in two entries")
+    bump([(a, 1, T31), (a, 2, T31)], "litLength + 2^31 and matchLength + 2^31 in one sequence")
+    bump([(a, 1, 0xFFFF0000), (a, 2, 0x10000)], "litLength + 0xFFFF0000 and matchLength + 0x10000 in one sequence")
+    c = [i for i in seqi if i != a]
+    if c:
+        bump([(a, 2, 0xC0000000), (rng.choice(c), 2, 0x40000000)], "matchLength + 0xC0000000 and + 0x40000000 in two sequences")
+    else:
+        bump([(a, 2, 0xC0000000), (n - 1, 1, 0x40000000)], "matchLength + 0xC0000000 and the delimiter's literals + 0x40000000")
+    d = rng.choice([1, 7, 100])
+    bump([(a, 1, T31), (b, 1, T31 - d)], "lengths exceed the block by 2^32 - %d" % d)
+    bump([(a, 1, T31), (a, 2, T31), (b, 1, T31)] + ([(b, 2, T31)] if ent[b][0] else [(n - 1, 1, T31)] if b != n - 1 else []), "three or four fields + 2^31")
+    bump([(n - 1, 1, T31), (a, 2, T31)], "the delimiter's literals + 2^31 and a matchLength + 2^31")
+    withlit = [i for i in seqi if ent[i][1] >= 1]
+    if withlit:
+        # no huge literal run at all: litLength + matchLength of ONE sequence is 2^32, the bytes it covered are given to the delimiter
+        g = rng.choice(withlit)
+        bump([(g, 2, (1 << 32) - ent[g][1] - ent[g][2]), (n - 1, 1, ent[g][1] + ent[g][2])], "matchLength = 2^32 - litLength in one sequence, the bytes it covered added to the delimiter's literals")
+    if len(seqi) >= 4:
+        bump([(i, rng.choice([1, 2]), 1 << 30) for i in rng.sample(seqi, 4)], "four fields + 2^30")
+    if len(seqi) >= 256:
+        bump([(i, rng.choice([1, 2]), 1 << 24) for i in rng.sample(seqi, 256)], "256 fields + 2^24")
+    # controls: one huge field
+    bump([(a, 1, 0xFFFFFFFF - ent[a][1])], "litLength = 2^32 - 1")
+    bump([(a, 2, 0xFFFFFFFF - ent[a][2])], "matchLength = 2^32 - 1")
+    bump([(a, 2, T31)], "matchLength + 2^31")
+    return out
+
+
+def merge_arrays(rng, quick):
+    """sequence arrays for ZSTD_mergeBlockDelimiters: every arrangement of up to 5 (resp. 4) entries over delimiters with and without literals,
+    sequences with and without literals, and the two near-delimiters (offset 0 with a match length; match length 0 with an offset), then long random
+    arrays with runs of delimiters.  Literal lengths are distinct enough for a lost or doubled one to show."""
+    import itertools
+    def ent(kind):
+        if kind == "D0": return (0, 0, 0)
+        if kind == "DL": return (0, rng.choice([1, 2, 9, 1000, 65535, 65536, 131072, rng.randint(1, 70000)]), 0)
+        if kind == "S":  return (rng.randint(1, 5000), rng.choice([1, 3, 100, 65536, rng.randint(1, 70000)]), rng.randint(3, 300))
+        if kind == "S0": return (rng.randint(1, 5000), 0, rng.randint(3, 300))
+        if kind == "N1": return (0, rng.randint(0, 50), rng.randint(1, 50))
+        return (rng.randint(1, 5000), rng.randint(0, 50), 0)
+    arrs = []
+    for n in range(0, 6):
+        for combo in itertools.product(("D0", "DL", "S", "S0"), repeat=n):
+            arrs.append([ent(k) for k in combo])
+    for n in range(1, 5):
+        for combo in itertools.product(("D0", "DL", "S", "S0", "N1", "N2"), repeat=n):
+            if "N1" in combo or "N2" in combo:
+                arrs.append([ent(k) for k in combo])
+    for i in range(300 if quick else 5000):
+        a = []
+        for _ in range(rng.choice([1, 3, 8, 20, 60])):
+            r = rng.random()
+            if r < 0.45:
+                a += [ent(rng.choice(["D0", "DL", "DL"])) for _ in range(rng.choice([1, 2, 2, 3, 5, 9]))]
+            elif r < 0.95:
+                a += [ent(rng.choice(["S", "S", "S0"])) for _ in range(rng.choice([1, 1, 2, 4]))]
+            else:
+                a.append(ent(rng.choice(["N1", "N2"])))
+        arrs.append(a)
+    return arrs
+
+
+def bare_block_sources(rng, quick):
+    """sources in which whole blocks hold no match at all, several in a row, between compressible stretches: ZSTD_generateSequences reports a run
+    of bare delimiters carrying the literals (blocks of 1..4 KiB through ZSTD_c_maxBlockSize, and a few at the full 128 KiB)"""
+    out = []
+    for i in range(36 if quick else 400):
+        big = i % 18 == 17
+        mbs = 131072 if big else rng.choice([1024, 1024, 2048, 4096])
+        x = bytearray()
+        shape = rng.choice(["mid", "mid", "lead", "two", "tail"])
+        def comp(n): filler(rng, x, n)
+        def noise(nb): x.extend(datagen.randbytes(rng, nb))
+        if shape != "lead":
+            comp(rng.choice([mbs // 2, mbs, mbs + mbs // 3, 3 * mbs - 17]) if not big else rng.randint(3000, 40000))
+        noise(rng.choice([3 * mbs, 3 * mbs + 5, 4 * mbs + mbs // 2, 6 * mbs]) if not big else 3 * mbs + rng.randint(0, 9000))
+        comp(rng.choice([mbs, 2 * mbs + 100]) if not big else rng.randint(3000, 40000))
+        if shape == "two":
+            noise(2 * mbs + rng.randint(mbs, 2 * mbs) if not big else 0); comp(mbs + 50 if not big else 0)
+        if shape == "tail":
+            noise(3 * mbs if not big else 0)
+        if len(x) % mbs and len(x) % mbs < 16:
+            comp(40)                                     # (a last block below 7 bytes makes ZSTD_generateSequences fail by design)
+        p = {100: rng.choice([1, 2, 3, 3, 4, 5, 7, 9]) if not big else rng.choice([1, 3]), 101: 17 if not big else 19}
+        if not big: p[1015] = mbs
+        out.append((bytes(x), p, mbs, shape))
+    return out
+
+
+def run_merge_family(ctx):
+    """ZSTD_mergeBlockDelimiters against SeqApi.mergeDelims: (a) small-scope exhaustive + random arrays, (b) the lists ZSTD_generateSequences reports for
+    sources with runs of match-less blocks, which must stay parses of the source once merged and round-trip through ZSTD_compressSequences without
+    delimiters (validation off and on)."""
+    rng = ctx.rng
+    sp = seqprod_harness("san"); exe = frames.harness("san"); plain = frames.harness("plain")
+    ev = 0
+    arrs = merge_arrays(rng, ctx.quick())
+    cl = ["mergeseq " + sstr(a) for a in arrs]; ml = ["merge " + sstr(a) for a in arrs]
+    oc = frames.parallel(lambda ch: [frames.run_lines(sp, ch, timeout=900)], frames.split_chunks(cl, 8))
+    got = []
+    for (rc, out, err), ch in zip(oc, frames.split_chunks(cl, 8)):
+        got += out + ["crash"] * (len(ch) - len(out))
+        if rc != 0:
+            ctx.violation("sanitizer build aborted in ZSTD_mergeBlockDelimiters: %s" % err[-600:], dict(kind="monitor", harness="zvh_seqprod", op=ch[min(len(out), len(ch) - 1)][:400000], stderr=err[-3000:]))
+    mo = frames.parallel(lambda ch: seqprod_model(ch), frames.split_chunks(ml, 8))
+    runs2 = 0
+    for a, c, m, g in zip(arrs, cl, mo, got):
+        ev += 1
+        if g == "crash":
+            continue
+        runs2 += any(a[i][0] == 0 and a[i][2] == 0 and a[i + 1][0] == 0 and a[i + 1][2] == 0 for i in range(len(a) - 1))
+        want = m.split(" ")[0]
+        if g != want and len(ctx.violations) < 6:
+            ctx.violation("ZSTD_mergeBlockDelimiters on %s leaves %s, the model (delimiters dropped, their literals - of every delimiter of a run - carried to the next sequence) says %s" % (sstr(a)[:300], g[:300], want[:300]),
+                          dict(kind="monitor", harness="zvh_seqprod", op=c[:400000], model_op=("merge " + sstr(a))[:400000], impl=g[:2000], model=m[:2000]))
+    # (b) extracted lists with runs of bare delimiters
+    srcs = bare_block_sources(rng, ctx.quick())
+    gl = ["genmerge %s %s" % (frames.pstr(p), frames.hx(x)) for x, p, _, _ in srcs]
+    go = frames.parallel(lambda ch: [frames.run_lines(sp, [ch[0]], timeout=900)], [[g] for g in gl])
+    cs, cm = [], []
+    nruns = 0
+    for (x, p, mbs, shape), ln, (rc, out, err) in zip(srcs, gl, go):
+        ev += 1
+        if len(ctx.violations) >= 10:
+            break
+        rep = dict(kind="monitor", harness="zvh_seqprod", op=ln[:400000], how="source with match-less blocks in a row (%s, blocks of %d)" % (shape, mbs))
+        if rc != 0 or not out:
+            ctx.violation("sanitizer build aborted in ZSTD_generateSequences + ZSTD_mergeBlockDelimiters: %s" % err[-600:], dict(rep, stderr=err[-3000:]))
+            continue
+        if out[0].startswith("err"):
+            ctx.violation("ZSTD_generateSequences failed (%s) on a source with match-less blocks (params %s)" % (out[0], frames.pstr(p)), dict(rep, result=out[0]))
+            continue
+        es, ms = out[0].split(" ")
+        E = [tuple(int(v) for v in t.split(":")) for t in es.split(",")] if es != "-" else []
+        M = [tuple(int(v) for v in t.split(":")) for t in ms.split(",")] if ms != "-" else []
+        nruns += any(E[i][0] == 0 and E[i][2] == 0 and E[i][1] > 0 and E[i + 1][0] == 0 and E[i + 1][2] == 0 and any(e[0] for e in E[i + 2:]) for i in range(len(E) - 1))
+        bad = exec_parse(E, x)
+        if bad is not None:
+            ctx.violation("ZSTD_generateSequences reports a list that is not a parse of the source (first wrong position %d; params %s)" % (bad, frames.pstr(p)), dict(rep, result=es[:2000]))
+            continue
+        model = seqprod_model(["merge " + es])[0].split(" ")
+        ev += 1
+        if ms != model[0]:
+            ctx.violation("ZSTD_mergeBlockDelimiters on the list ZSTD_generateSequences reported (%d entries, runs of bare delimiters) differs from the model: merged list describes %d bytes, the model's %d + %s last literals, the source has %d (params %s)" % (
+                len(E), sum(l + m_ for _, l, m_ in M), sum(int(t.split(":")[1]) + int(t.split(":")[2]) for t in model[0].split(",")) if model[0] != "-" else 0, model[1], len(x), frames.pstr(p)),
+                dict(rep, model_op=("merge " + es)[:400000], impl=ms[:2000], model=model[0][:2000]))
+            continue
+        covered = sum(l + m_ for _, l, m_ in M)
+        bad = exec_parse(M, x[:covered]) if covered <= len(x) else covered
+        if bad is not None:
+            ctx.violation("the merged list is not a parse of the source any more (first wrong position %d of %d)" % (bad, len(x)), dict(rep, impl=ms[:2000]))
+            continue
+        for val in (0, 1):
+            q = {100: 3, 101: p[101], 105: 3, 1008: 0, 1009: val, 201: 1}
+            cs.append("cseq %s %s %s" % (frames.pstr(q), frames.hx(x), ms)); cm.append((x, q, rep))
+    if cs:
+        fr = frames.parallel(lambda ch: [frames.run_lines(exe, ch, timeout=900)], frames.split_chunks(cs, 16))
+        fl = []
+        for (rc, out, err), ch in zip(fr, frames.split_chunks(cs, 16)):
+            fl += out + ["crash"] * (len(ch) - len(out))
+            if rc != 0:
+                ctx.violation("sanitizer build aborted in ZSTD_compressSequences on a merged extracted parse: %s" % err[-600:], dict(kind="monitor", op=ch[min(len(out), len(ch) - 1)][:400000], stderr=err[-3000:]))
+        idx = [i for i, f in enumerate(fl) if f != "crash" and not f.startswith("err")]
+        da = frames.parallel(lambda ch: frames.run_lines(plain, ch)[1], frames.split_chunks(["dec %d %s" % (len(cm[i][0]), fl[i]) for i in idx], 16)) if idx else []
+        wa = frames.parallel(lambda ch: frames.run_lines(plain, ch)[1], frames.split_chunks(["xxh " + frames.hx(cm[i][0]) for i in idx], 16)) if idx else []
+        cf = frames.parallel(lambda ch: frames.model_lines(ch), frames.split_chunks(["conform %s %s - 0 0" % (fl[i], frames.hx(cm[i][0])) for i in idx], 16)) if idx else []
+        res = dict(zip(idx, zip(da, wa, cf)))
+        for i, ((x, q, rep), ln, f) in enumerate(zip(cm, cs, fl)):
+            ev += 1
+            if f == "crash" or len(ctx.violations) >= 6:
+                continue
+            r = dict(rep, op=ln[:400000], extraction_op=rep["op"][:200000])
+            if f.startswith("err"):
+                ctx.violation("ZSTD_generateSequences -> ZSTD_mergeBlockDelimiters -> ZSTD_compressSequences (no delimiters, validateSequences=%d) refused the merged parse: %s" % (q[1009], f), dict(r, result=f))
+                continue
+            a, w, b = res[i]
+            ev += 2
+            if a != w:
+                ctx.violation("ZSTD_generateSequences -> ZSTD_mergeBlockDelimiters -> ZSTD_compressSequences (no delimiters, validateSequences=%d): the frame does not decode to the source: %r expected %r" % (q[1009], a, w), dict(r, library_decoder=a, expected=w))
+            elif not b.startswith("ok"):
+                ctx.violation("ZSTD_generateSequences -> ZSTD_mergeBlockDelimiters -> ZSTD_compressSequences: frame not conformant / not decodable independently: %s" % b[:200], dict(r, conformance=b[:300]))
+    return ev, dict(arrays=len(arrs), arrays_with_delimiter_runs=runs2, extracted=len(srcs), extracted_with_literal_delimiter_runs=nruns)
+
+
 def sstr(seqs):
     return ",".join("%d:%d:%d" % s for s in seqs) or "-"
 
@@ -830,12 +1088,42 @@ def correspondence(ctx):
         if mbs: p[1015] = mbs
         cl2.append("cseq %s %s %s" % (frames.pstr(p), frames.hx(x), sstr(sq)))
         ml2.append("seqaccept %d %d 0 %d %d %s" % (limit, 1 << wl, mm, len(x), sstr(sq))); cmeta.append((x, p))
-    oc = frames.parallel(lambda ch: [frames.run_lines(exe, ch, timeout=1800)], frames.split_chunks(cl2, 16))
+    # directed: one block of a valid explicit-delimiter list gets lengths that exceed it by 2^32 (a multiple, or a little less): the block-size
+    # sum is the legitimate size again in any arithmetic narrower than 64 bits; single huge fields as controls.  All refused by the model.
+    nwrap = 0
+    for i in range(8 if ctx.quick() else 200):
+        x = datagen.gen(rng, 6000)[1]
+        if i % 4 == 0:
+            x = datagen.repcodes(rng, 3000)
+        if len(x) < 200:
+            continue
+        wl = rng.choice([10, 12, 17]); mm = rng.choice([3, 4, 5])
+        mbs = rng.choice([0, 0, 1024, 2048])
+        limit = min(1 << wl, 131072, mbs or 131072)
+        seqs, tail = parse(rng, x, 1 << wl, mm)
+        sq = with_delimiters(rng, seqs, tail, limit)
+        blocks_, cur = [], []
+        for e in sq:
+            cur.append(e)
+            if e[0] == 0 and e[2] == 0:
+                blocks_.append(cur); cur = []
+        if cur or not blocks_:
+            continue
+        cand = [bi for bi, b in enumerate(blocks_) if any(e[0] for e in b)]
+        if not cand:
+            continue
+        bi = rng.choice(cand[:2] + cand[-1:])
+        for name, ent in wrap_variants(rng, blocks_[bi]):
+            sq2 = [e for b in blocks_[:bi] for e in b] + ent + [e for b in blocks_[bi + 1:] for e in b]
+            p = {100: 3, 101: wl, 105: mm, 1008: 1, 1009: 1}
+            if mbs: p[1015] = mbs
+            cl2.append("cseq %s %s %s" % (frames.pstr(p), frames.hx(x), sstr(sq2)))
+            ml2.append("seqaccept %d %d 0 %d %d %s" % (limit, 1 << wl, mm, len(x), sstr(sq2))); cmeta.append((x, p)); nwrap += 1
+    oc = frames.parallel(lambda ch: [run_resume(exe, ch, timeout=1800)], frames.split_chunks(cl2, 16))
     r2 = []
-    for (rc, out, err), ch in zip(oc, frames.split_chunks(cl2, 16)):
-        r2 += out + ["crash"] * (len(ch) - len(out))
-        if rc != 0:
-            bad = ch[min(len(out), len(ch) - 1)]
+    for (out, crashes), ch in zip(oc, frames.split_chunks(cl2, 16)):
+        r2 += out
+        for bad, err in crashes[:1]:
             ctx.violation("sanitizer build aborted in ZSTD_compressSequences on an arbitrary sequence array: %s" % err[-600:], dict(kind="monitor", op=bad[:400000], stderr=err[-3000:]))
     m2 = frames.parallel(lambda ch: frames.model_lines(ch), frames.split_chunks(ml2, 16))
     # accepted lists (valid by the rules, whatever their content) must at least produce a frame the decoder does not reject
@@ -844,7 +1132,7 @@ def correspondence(ctx):
     for k, dres in accd.items():
         ev += 1
         if dres.startswith("err") and len(ctx.violations) < 8:
-            ctx.violation("with validation on, ZSTD_compressSequences accepted a sequence list and emitted a frame the decoder rejects (%s): an offset beyond the available history was let through" % dres,
+            ctx.violation("with validation on, ZSTD_compressSequences accepted a sequence list and emitted a frame the decoder rejects (%s): an offset beyond the available history, or lengths beyond the source, were let through" % dres,
                           dict(kind="monitor", op=cl2[k][:400000], model_op=ml2[k][:400000], frame=r2[k][:2000], decoder=dres))
     agree = {"accept": 0, "reject": 0}
     for ln, mln, c, m in zip(cl2, ml2, r2, m2):
@@ -869,16 +1157,19 @@ def correspondence(ctx):
     # (4) literal runs at the 16-bit boundary through ZSTD_generateSequences
     lev, lcases = run_ll64k(ctx)
     ev += lev
-    return dict(evaluations=ev, distinct_nontrivial=len({l for l in lines}) + len({l for l in cl2}) + len(pcases) + lcases,
+    # (5) ZSTD_mergeBlockDelimiters against the model; extracted lists with runs of bare delimiters merged and fed back
+    mev, mstats = run_merge_family(ctx)
+    ev += mev
+    return dict(evaluations=ev, distinct_nontrivial=len({l for l in lines}) + len({l for l in cl2}) + len(pcases) + lcases + mstats["arrays"] + mstats["extracted"],
                 rule="valid parses: random greedy parser (minMatch 3..7, windows 1 KiB..1 MiB, repcode-heavy sources, blocks cut at random sizes with explicit delimiters incl. matches split across blocks; delimiter-free lists with "
                      "matches crossing 128 KiB) and the library's extracted sequences (with / without merged delimiters), several levels / repcode-search modes / maxBlockSize; corruptions of valid explicit-delimiter lists "
                      "(offset +-, match length, literal length, delimiter removed / inserted / truncated list / extra entry / random entries) with validation on; ASan+UBSan build",
                 samples=[dict(op=lines[0][:50] + " ... " + lines[0].split()[-1][:60], result=res[0][:40])], valid_parses=len(lines), corruptions=len(cl2), verdict_agreement=agree,
-                producer_cases=len(pcases), producer_stats=pstats, literal_run_cases=lcases)
+                producer_cases=len(pcases), producer_stats=pstats, literal_run_cases=lcases, merge=mstats, length_wrap_lists=nwrap)
 
 
 def replay(ctx, data):
     exe = seqprod_harness("san") if data.get("harness") == "zvh_seqprod" or data.get("op", "").startswith("prod") else frames.harness("san")
     rc, out, err = frames.run_lines(exe, [data["op"]])
-    m = frames.model_lines([data["model_op"]]) if data.get("model_op") else None
+    m = (seqprod_model([data["model_op"]]) if data["model_op"].startswith("merge ") else frames.model_lines([data["model_op"]])) if data.get("model_op") else None
     return dict(violates=True, impl=[o[:200] for o in out], model=m, rc=rc, stderr=err[-800:])
